@@ -1,5 +1,6 @@
 """C20 -- Asset lookup: the named file if it exists, else a pattern match, else None."""
 import os
+import shutil
 
 from . import c19
 
@@ -29,7 +30,8 @@ REQUIRED = ["directory_path_not_normalized", "entry_matches_two_kinds", "multi_d
             "specified_missing_subdir_with_pattern_match", "specified_missing_no_match", "pattern_hit", "near_miss_only",
             "no_match_none", "pack_banner_inside", "pack_banner_beside", "pack_banner_none", "pack_sibling_prefix_name", "pack_path_is_a_single_relative_component",
             "native", "memory", "simfile_read_from_directory_holding_sm_and_ssc", "simfile_read_from_directory_holding_only_sm",
-            "named_path_goes_through_a_regular_file", "pack_name_with_regex_metacharacters"]
+            "named_path_goes_through_a_regular_file", "pack_name_with_regex_metacharacters",
+            "tree_rebuilt_at_the_same_path_under_the_same_filesystem_object", "named_file_lies_in_a_symlinked_sub_directory"]
 
 IMAGE = [".png", ".jpg", ".jpeg", ".gif", ".bmp"]
 AUDIO = [".mp3", ".oga", ".ogg", ".wav"]
@@ -169,13 +171,29 @@ def gen_pack(rng):
 
 
 def check(ctx, case):
-    t = c19.Tree(case["fs"], case["tree"])
+    # (native trees are rebuilt at one and the same path, under one filesystem object, every second time; in-memory
+    # trees likewise share one MemoryFS whose /top is wiped: the same sub-directory path holds other files each time)
+    t = c19.Tree(case["fs"], case["tree"], reuse=case["fs"] == "native" and ctx.evaluations % 2 == 0)
     try:
         ctx.feat(case["fs"])
+        if t.reused:
+            ctx.feat("tree_rebuilt_at_the_same_path_under_the_same_filesystem_object")
+        if case["fs"] == "native" and case["kind"] == "dir" and ctx.evaluations % 3 == 0:
+            # the sub-directory the simfile points into is a symbolic link to a directory that lives elsewhere
+            sub = os.path.join(t.root, "Song", "gfx")
+            if os.path.isdir(sub) and not os.path.islink(sub):
+                shared = os.path.join(os.path.dirname(t.root), "_shared_gfx_%d" % ctx.evaluations)
+                shutil.rmtree(shared, ignore_errors=True)
+                shutil.move(sub, shared)
+                os.symlink(shared, sub)
+                t._extra_cleanup = shared
+                ctx.feat("named_file_lies_in_a_symlinked_sub_directory")
         if case["kind"] == "pack":
             return check_pack(ctx, case, t)
         return check_dir(ctx, case, t)
     finally:
+        if getattr(t, "_extra_cleanup", None):
+            shutil.rmtree(t._extra_cleanup, ignore_errors=True)
         t.close()
 
 
